@@ -11,23 +11,25 @@ TABLE = {
     'C01': ('ast flow model: must-pass-through + provenance + per-item-store (BULK) rules on do_mapping',
             'Static necessary conditions of the conservation property: the unmapped-atom / overlap warnings are at WARNING level, '
             'unskippable and fed by the placement table; one block merge per placement; constituent graph and weights from one table; '
-            'cross-placement edges from input connectivity; per-attribute guard writes that attribute only.',
+            'cross-placement edges from input connectivity; per-attribute guard writes that attribute only; induced matching; modification mappings chosen per '
+            'connected group of modified atoms by an exact cover, every placement returned.',
             'Decides the structural clauses, not the outcome of the matcher or the renumbering arithmetic; trusted: ast parser, anchor names in vstat/rules/c01.py.',
             'DESIGN.md §4 C01'),
     'C02': ('ast taint/provenance: every atom reference written by the ITP writer passes the key->index table filled in the atom loop',
             'Static: renumbering table filled in the same loop (enumerate start=1, no skip) that writes [ atoms ]; every interaction atom '
-            'goes through it; no interaction filtered; #ifdef/#endif pairing; sorted/groupby key agreement; section rewrites.',
+            'goes through it; no interaction filtered; #ifdef/#endif pairing; sorted/groupby key agreement; section rewrites; the comment is appended after the last field; the writer is pure.',
             'Does not decide text alignment or parameter formatting; trusted: ast parser, anchors in vstat/rules/c02.py.',
             'DESIGN.md §4 C02'),
     'C03': ('ast sibling-agreement + provenance rules on the PDB/ITP/top writers and moltype deduplication',
             'Static: coordinate and ITP writers iterate atoms through the same iterator; #include list is built under the '
             'first-occurrence guard of the ITP write; [ molecules ] from groupby over system.molecules; share_moltype_with compares '
-            'everything the ITP prints.',
+            'everything the ITP prints; equality predicates never compare a zip() prefix (ZIP-prefix lint).',
             'Does not decide file contents; trusted: ast parser, anchors in vstat/rules/c03.py.',
             'DESIGN.md §4 C03'),
     'C04': ('ast provenance: node predicate handed to the matcher reads only the element; unrecognised = complement of the match',
             'Narrow static claim: the matcher predicate of make_reference is name-blind; PTM_atom is set on found-minus-matched only; '
-            'canonical attributes are copied from the matched block atom.',
+            'canonical attributes are copied from the matched block atom and win over residue-level attributes on rebuilt atoms; the symmetry cache key covers everything the computation reads; '
+            'a patched reference block gets every anchor-added bond in either orientation.',
             'The bulk of C04 (largest match, invariance under renaming) depends on the ISMAGS search outcome and is not decided.',
             'DESIGN.md §4 C04'),
     'C05': ('ast relevance (origin-set slices) + who-may-call/ordering on match_link and DoLinks.run_molecule',
@@ -54,8 +56,9 @@ TABLE = {
             'DESIGN.md §4 C09'),
     'C10': ('literal table vs cited source + truth-table equivalence of the distance-bond guard (decision table)',
             'Static: VDW table equals Bondi/Rowland-Taylor values; the path condition of the distance-bond insertion is equivalent '
-            '(all assignments of the named atoms) to the stated conjunction; residue identity includes the molecule index; nothing removed.',
-            'Does not decide KD-tree completeness or near-threshold arithmetic; trusted: ast parser, atom naming in vstat/rules/c10.py, embedded Bondi table.',
+            '(all assignments of the named atoms) to the stated conjunction; residue identity includes the molecule index; nothing removed; the KD-tree candidate radius covers the '
+            'largest pair threshold for every fudge factor; every distance pass gets the requested fudge factor; block non-bonds are accumulated over all residues.',
+            'Does not decide the KD-tree implementation or near-threshold floating-point arithmetic; trusted: ast parser, atom naming in vstat/rules/c10.py, embedded Bondi table.',
             'DESIGN.md §4 C10'),
     'C11': ('ast unordered-iteration lint (hash-ordered collections of non-integers reaching order-sensitive sinks) with a frozen triage table',
             'Narrow static claim (hash-seed clause only): no iteration over a set of strings/objects or a directory listing reaches an '
@@ -70,7 +73,8 @@ TABLE = {
             'DESIGN.md §4 C12'),
     'C13': ('decorator-table analysis of the section dispatchers + idempotence, sibling-guard and dominance rules on the parsers',
             'Static: section dispatch tables are mutually consistent and reachable after case folding; registrations at section end are '
-            'idempotent; documented rejections dominate registrations; sibling parsers reject the same things; no swallowed parse error.',
+            'idempotent; documented rejections dominate registrations (exact decision tables); sibling parsers reject the same things; no swallowed parse error; key prefix and order attribute '
+            'are equivalent (the four normalisation helpers interpreted over 720 key/attribute cases by the checker\'s own evaluator); [ edges ] use the normalised keys; specific metadata wins over #meta.',
             'Does not decide token-level grammar or macro substitution results; trusted: ast parser, tables in vstat/rules/c13.py.',
             'DESIGN.md §4 C13'),
     'C14': ('ast pairing (removal <-> unknown-input warning) and residue-key agreement rules on fix_ptm',
@@ -92,20 +96,25 @@ TABLE = {
     'C17': ('ast sibling rule on zip operands (same filtered source) + dominance of the length test + literal table agreement',
             'Static: molecules and per-molecule lengths zipped together come from identically filtered sequences; length mismatch raises '
             'before any assignment; stores are unconditional over the residue; DSSP alphabet is covered by the translation table; helix '
-            'rewrite table preserves length.',
+            'rewrite table (literal, or constructed from constants and then interpreted by the checker) preserves length and matches the documented run rules.',
             'Does not decide the rewriting outcome for every string; trusted: ast parser.',
             'DESIGN.md §4 C17'),
     'C18': ('ast provenance of the virtual-site record + truth-table equivalence of the contact guard (decision table)',
             'Static: virtual-site fields come from the backbone particle iterated, keys start after the maximum, one site + construction per '
-            'backbone node; the path condition of pair emission is equivalent to the stated conjunction; sigma factor folds to 2**(1/6).',
+            'backbone node; the path condition of pair emission is equivalent to the stated conjunction; sigma factor folds to 2**(1/6); contact-map reader, built-in generator and '
+            'consumer agree on the contact tuple layout and on the OV / rCSU acceptance criterion.',
             'Does not decide residue lookup correctness or float equality of the two directions; trusted: ast parser, atom naming in vstat/rules/c18.py.',
             'DESIGN.md §4 C18'),
     'C19': ('ast flag-aggregation rule + dominance + decision table of the terminal rule',
             'Static: the not-found report is not decided by a per-request flag (known finding), unknown target raises before annotation, '
-            'annotation covers every atom of the residue, terminal rule orientation.',
+            'annotation covers every atom of the residue, terminal rule orientation; the reference block is patched with every requested modification except the placeholder, none ends the loop.',
             'Does not decide specification parsing ambiguities; trusted: ast parser.',
             'DESIGN.md §4 C19'),
 }
+
+SHARED = (' Shared semantic lints over the files the property is anchored in: TRUTHY-zero (no truthiness test / `or` default on values for which 0 is legitimate), '
+          'STATE-no-memory (no new module-, class- or instance-level memory outside the triaged inventory), ARG-binding (no transposed / crossed arguments at resolved calls), '
+          'EDGE-orientation (no one-sided test on the ends of an undirected edge).')
 
 NA = {
     'C06': 'Correctness of a symmetry-reduced backtracking isomorphism search over all graph pairs: every clause is about the set of '
@@ -129,6 +138,7 @@ def main():
             na.append({'property_id': pid, 'reason': NA[pid]})
         elif pid in have and pid in TABLE:
             tech, text, note, ref = TABLE[pid]
+            text = text + SHARED
             checks.append({
                 'property_id': pid,
                 'quick_cmd': './vcheck {} --tier quick'.format(pid),
